@@ -6,7 +6,7 @@ import vlib
 
 HARNESS = ["aml/c11_harness_test.go", "aml/c11_random_test.go"]
 PKG = "device/acpi/aml"
-TRIGGERS = ["D1", "D1b", "D2", "D2c", "D3", "D5", "D7", "D8", "D9", "D10", "D11", "D12", "D13"]           # ids that have a trigger predicate in AmlNs.tla
+TRIGGERS = ["D1", "D1b", "D2", "D2c", "D3", "D5", "D7", "D8", "D9", "D10", "D11", "D12", "D13", "D14", "D15"]           # ids that have a trigger predicate in AmlNs.tla
 # findings without a trigger of their own: their constructs are excluded through these
 VIA = {"D4": ["D3"], "D6": ["D5", "D7"]}
 ASSUME = [
@@ -222,7 +222,7 @@ def run(ctx):
 
     # ---- leg M (+ emission for G): the generator's state graph is the tree of program prefixes; LoaderSound and Refines on all of it
     mp = vlib.maxpar()                                   # shared-machine cap on parallelism
-    pool = max(1, min(4 if q else 2, mp // 2))
+    pool = max(1, min(4 if q else 2, mp))
     per = max(1, min(3 if q else 8, mp // pool))
 
     def mc(p):
@@ -235,8 +235,9 @@ def run(ctx):
     bugs = ["Bug_MergeIntoObject", "Bug_CountersResetPerPass"] if q else \
            ["Bug_MergeIntoObject", "Bug_UnitsNotAccumulated", "Bug_ArgcFromSyncBits", "Bug_CallsInFirstPass", "Bug_CountersResetPerPass"]
     opens = [x for x in (["Open_D1"] if q else ["Open_D1", "Open_D1b", "Open_D2", "Open_D3"]) if x[5:] in excl]
-    with concurrent.futures.ThreadPoolExecutor(max_workers=max(1, min(4, mp // 2))) as ex:
-        list(ex.map(lambda b: ctx.expect_model_violation(d, "MCAmlNs", "MCAmlNs" + b, workers=2, timeout=900), bugs + opens))
+    pool2 = max(1, min(4, mp))
+    with concurrent.futures.ThreadPoolExecutor(max_workers=pool2) as ex:
+        list(ex.map(lambda b: ctx.expect_model_violation(d, "MCAmlNs", "MCAmlNs" + b, workers=max(1, min(2, mp // pool2)), timeout=900), bugs + opens))
 
     # ---- leg G input: all emitted programs (thorough) or a seeded sample (quick); lines are passed on unparsed
     n_progs, emitted = 0, 0
@@ -250,10 +251,10 @@ def run(ctx):
                     lines = [l for l in f if l.strip()]
             emitted += len(lines)
             ctx.cov["legs"]["MCAmlNs%s%s" % (p, tier)]["programs_emitted"] = len(lines)
-            if q and len(lines) > 2000:      # seeded sample; programs the design model resolves in >= 3 passes are always kept
+            if q and len(lines) > 1500:      # seeded sample; programs the design model resolves in >= 3 passes are always kept
                 deep = [l for l in lines if re.search(r'np\\?":\[[0-9,]*[3-9]', l)]
                 rest = [l for l in lines if l not in set(deep)]
-                lines = deep + rnd.sample(rest, max(0, 2000 - len(deep)))
+                lines = deep + rnd.sample(rest, max(0, 1500 - len(deep)))
             gf.writelines(lines)
             n_progs += len(lines)
     if not n_progs:
@@ -262,7 +263,7 @@ def run(ctx):
     t_out = os.path.join(ctx.work, "t_trace.ndjson")
     r_in, r_out = os.path.join(ctx.work, "r_in.ndjson"), os.path.join(ctx.work, "r_trace.ndjson")
     write_progs(r_in, [e["reproducer"]["toks"] for e in findings])
-    n_random = 80 if q else 1000
+    n_random = 60 if q else 1000
     run_go(ctx, g_in, g_out, t_out, n_random, r_in, r_out, excl)
 
     # ---- leg V: one pool of monitor processes judges both traces (random programs carry ids > 10^6)
@@ -310,7 +311,7 @@ def run(ctx):
     ctx.cov["legs"]["G+T"]["programs_emitted_by_model"] = emitted
     ctx.cov["exhaustive"] = (not q) and not ctx.violations
     ctx.cov["explanation"] = ("exhaustive = every complete program of the four TLC scopes (thorough tier: %d programs) was encoded, parsed by the "
-                              "real parser and judged; the quick tier replays a seeded sample of at most 2000 programs per scope" % emitted)
+                              "real parser and judged; the quick tier replays a seeded sample of at most 1500 programs per scope" % emitted)
 
 
 def replay(ctx, path):
